@@ -19,13 +19,13 @@ def _pass(seed, count, label):
     def p(chk):
         lines = chk.gen_js("rt", seed, count)
         return vcheck.corr_pass(chk, "rt", lines, label, engine="js", oracle_filter=vcheck.tag_filter(TAGS),
-                                known_matcher=vcheck.known_by_hyp(chk, HYP))
+                                known_matcher=vcheck.known_by_hyp(chk, HYP), view=vcheck.rt_view(PID))
     return p
 
 def _corpus(chk):
     lines = vcheck.corpus_lines(PID)
     return vcheck.corr_pass(chk, "rt", lines, "rt(corpus)", engine="js", oracle_filter=vcheck.tag_filter(TAGS),
-                            known_matcher=vcheck.known_by_hyp(chk, HYP))
+                            known_matcher=vcheck.known_by_hyp(chk, HYP), view=vcheck.rt_view(PID))
 
 def run(chk):
     chk.build_js()
@@ -42,6 +42,6 @@ def replay(chk, path):
     chk.build_js(); chk.build_lean(MODULES)
     lines = [l for l in open(path).read().split("\n") if l.strip() and not l.startswith(";")]
     st = vcheck.corr_pass(chk, "rt", lines, "rt(replay)", engine="js", oracle_filter=vcheck.tag_filter(TAGS),
-                          known_matcher=vcheck.known_by_hyp(chk, HYP))
+                          known_matcher=vcheck.known_by_hyp(chk, HYP), view=vcheck.rt_view(PID))
     print(st)
     return chk.finish("proof", {"evaluations": len(lines), "distinct_nontrivial": st["nontrivial"]})
